@@ -47,7 +47,12 @@ from typing import (
 # -----------------------------------------------------------------------------
 # 📥 Project-Specific Imports
 # -----------------------------------------------------------------------------
-from .events import AfterEvent, DoneEvent, Event
+from .events import (
+    AfterEvent,
+    DoneEvent,
+    Event,
+    ScopedAfterEvent,
+)
 from .exceptions import (
     ImplementationMissingError,
     InvalidConfigError,
@@ -298,6 +303,10 @@ class BaseInterpreter(Generic[TContext, TEvent]):
 
         # 🌳 State & Actor Management
         self._active_state_nodes: Set[StateNode] = set()
+        #: How many times each state has been entered. Engine-raised events
+        #: are stamped with the value current when they were scheduled, so an
+        #: event from an activation that has since ended can be discarded.
+        self._activation: Dict[str, int] = {}
         #: Remembered configurations for history pseudo-states, keyed by the
         #: *parent* state id. Recorded on exit, replayed when a transition
         #: targets a `type: "history"` child of that parent.
@@ -2003,6 +2012,7 @@ class BaseInterpreter(Generic[TContext, TEvent]):
 
         for state in states_to_enter:
             self._active_state_nodes.add(state)
+            self._note_activation(state)
             logger.debug("➡️  Entering state: '%s'.", state.id)
 
             # ⚙️ Run entry actions and schedule background tasks.
@@ -2052,6 +2062,53 @@ class BaseInterpreter(Generic[TContext, TEvent]):
                 ]
                 if regions:
                     await self._enter_states(regions, trigger_event)
+
+    def _note_activation(self, state: StateNode) -> None:
+        """Counts one more entry of `state` (see `_activation`).
+
+        Args:
+            state (StateNode): The state that has just become active.
+        """
+        self._activation[state.id] = self._activation.get(state.id, 0) + 1
+
+    def _scope_event(self, event: Any, owner_id: str) -> Any:
+        """Stamps an engine-raised event with its owner's current activation.
+
+        Args:
+            event (Any): A `ScopedAfterEvent` / `ScopedDoneEvent` instance.
+            owner_id (str): The state the event belongs to.
+
+        Returns:
+            Any: The same event, stamped.
+        """
+        event.owner_id = owner_id
+        event.epoch = self._activation.get(owner_id, 0)
+        return event
+
+    def _is_stale_event(self, event: Any) -> bool:
+        """Reports whether an engine-raised event outlived its activation.
+
+        🏛️ Architecture decision: cancelling a timer on exit cannot recall an
+        expiry that is ALREADY queued behind the event that leaves the state.
+        Events are matched by type only, so once the state had been
+        re-entered such an expiry fired the new activation's `after`
+        transition immediately - zero milliseconds after entry. Comparing
+        the stamp with the owner's current activation at dequeue time
+        discards exactly those events; events sent by users carry no stamp
+        and are never affected.
+
+        Args:
+            event (Any): The event just taken from the queue.
+
+        Returns:
+            bool: `True` if the event must be discarded.
+        """
+        owner_id = getattr(event, "owner_id", None)
+        if owner_id is None:
+            return False
+        if self._activation.get(owner_id, 0) != getattr(event, "epoch", 0):
+            return True
+        return not any(s.id == owner_id for s in self._active_state_nodes)
 
     def _record_history(self, states_to_exit: List[StateNode]) -> None:
         """Remembers the active configuration of states being exited.
@@ -2918,7 +2975,9 @@ class BaseInterpreter(Generic[TContext, TEvent]):
                 continue
             for t_def in transitions:
                 delay_sec = float(resolved_ms) / 1000.0
-                after_event = AfterEvent(type=t_def.event)
+                after_event = self._scope_event(
+                    ScopedAfterEvent(type=t_def.event), state.id
+                )
                 self._after_timer(delay_sec, after_event, owner_id=state.id)
                 logger.debug(
                     "🕒 Scheduled 'after' event '%s' in %.2fs for state '%s'.",
